@@ -571,11 +571,19 @@ func main() {
 		want string // what the implementation produced
 		key  string
 		desc string
+		kind string // "property" (the model is the reference encoder/decoder of the format) | "correspondence"
 	}
 	var exps []expect
 	add := func(line, want, key, desc string) {
 		lines = append(lines, line)
-		exps = append(exps, expect{want, key, desc})
+		exps = append(exps, expect{want, key, desc, "property"})
+	}
+	// addC: a disagreement on this line is a disagreement between model and code on an input about
+	// which the property text itself is silent (malformed input); the property is evaluated directly
+	// on the implementation by every other stage of the run
+	addC := func(line, want, key, desc string) {
+		lines = append(lines, line)
+		exps = append(exps, expect{want, key, desc, "correspondence"})
 	}
 
 	totalLines := 0
@@ -601,11 +609,11 @@ func main() {
 					o1 := parseOp(one)
 					p := runWrite([]op{o1})
 					lines2 = append(lines2, "W "+p.line)
-					exps2 = append(exps2, expect{fmt.Sprintf("%s %d", vh.Hex(p.bytes), p.size), "encode:" + o1.kind, p.line})
+					exps2 = append(exps2, expect{fmt.Sprintf("%s %d", vh.Hex(p.bytes), p.size), "encode:" + o1.kind, p.line, "property"})
 				}
 				continue
 			}
-			rep.Fail("property", e.key, "implementation differs from the reference model",
+			rep.Fail(e.kind, e.key, "implementation differs from the reference model",
 				map[string]interface{}{"line": vh.Clip(lines[i], 4000), "implementation": vh.Clip(e.want, 4000), "model": vh.Clip(got, 4000)})
 		}
 		if len(lines2) > 0 {
@@ -1087,6 +1095,16 @@ func main() {
 				var at0, atp string
 				oc := vh.Guard(func() { at0 = r.f(append([]byte{}, fl...), 0); atp = r.f(buf, p) })
 				rep.Count("offset-read")
+				if conv, ok := convOf[r.name]; ok && oc.OK() {
+					add(fmt.Sprintf("G %s %d %s", conv, p, vh.Hex(buf)), atp, "offset-model:"+r.name, "field at an offset")
+					if rng.Chance(15) { // a position at which the field leaves the buffer: index out of range
+						q := len(buf) - r.w + 1 + rng.Intn(3)
+						gotq := "fail"
+						bc := append([]byte{}, buf...)[:len(buf):len(buf)] // cap == len: Get is a slice expression, whose bound is the capacity
+						vh.Guard(func() { gotq = r.f(bc, q) })
+						add(fmt.Sprintf("G %s %d %s", conv, q, vh.Hex(buf)), gotq, "offset-model:"+r.name+":out-of-range", "field beyond the buffer")
+					}
+				}
 				if (!oc.OK() || at0 != atp) && !bad[r.name] {
 					bad[r.name] = true
 					rep.Fail("property", "offset:"+r.name, "the helper reads a field at offset p differently from the same field at offset 0",
@@ -1118,6 +1136,13 @@ func main() {
 				var ret, enc []byte
 				oc := vh.Guard(func() { enc = w.enc(v); ret = w.set(buf, p, v) })
 				rep.Count("offset-write")
+				if oc.OK() {
+					if w.name == "SetBytesBool" || w.name == "SetBytes" {
+						add(fmt.Sprintf("SR %d %s %s", p, vh.Hex(enc), vh.Hex(before)), vh.Hex(buf), "offset-model:"+w.name, "bytes packed at an offset")
+					} else {
+						add(fmt.Sprintf("SB %d %d %d %s", w.w, p, int64(v), vh.Hex(before)), vh.Hex(buf), "offset-model:"+w.name, "field packed at an offset")
+					}
+				}
 				want := append(append(append([]byte{}, before[:p]...), enc...), before[p+w.w:]...)
 				if (!oc.OK() || !bytes.Equal(buf, want) || !bytes.Equal(ret, want)) && !bad[w.name] {
 					bad[w.name] = true
@@ -1215,6 +1240,303 @@ func main() {
 		}
 	}
 
+	// 12. malformed input.  The model's decoders are total: on every byte string they either fail or
+	// return values and a rest.  The implementation must agree with them on truncated, mutated and
+	// random input as well (which ties the failure side of the model, the signed/unsigned reading of
+	// every length field and — through the array reads — the CheckCount guard, which the model proves
+	// invisible: `check_count_invisible`).  A strict prefix of a program's bytes must never read back
+	// (`program_prefix_fails`): evaluated directly.
+	{
+		nmal := 500
+		if env.Thorough {
+			nmal = 12000
+		}
+		arrKinds := []string{"shortArr", "intArr", "longArr", "floatArr", "doubleArr", "textArr"}
+		mutate := func(b []byte) ([]byte, string) {
+			c := append([]byte{}, b...)
+			if len(c) == 0 {
+				return []byte{byte(rng.Intn(256))}, "insert"
+			}
+			switch rng.Intn(5) {
+			case 0:
+				c[rng.Intn(len(c))] = byte(rng.PickInt([]int{0, 1, 0x7f, 0x80, 0xfd, 0xfe, 0xff}))
+				return c, "boundary-byte"
+			case 1:
+				c[rng.Intn(len(c))] ^= 1 << uint(rng.Intn(8))
+				return c, "bit-flip"
+			case 2:
+				i := rng.Intn(len(c))
+				return append(c[:i], c[i+1:]...), "delete"
+			case 3:
+				i := rng.Intn(len(c) + 1)
+				return append(append(append([]byte{}, c[:i]...), byte(rng.Intn(256))), c[i:]...), "insert"
+			default:
+				c[0] = byte(rng.PickInt([]int{0, 1, 2, 3, 4, 5, 6, 8, 9, 0x7f, 0x80, 0xfd, 0xfe, 0xff}))
+				return c, "first-byte"
+			}
+		}
+		truncBad := false
+		for i := 0; i < nmal; i++ {
+			n := 1 + rng.Intn(4)
+			ops := make([]op, n)
+			for j := range ops {
+				ops[j] = genOp(rng, false)
+				for len(ops[j].bs) > 400 || len(ops[j].is) > 300 || len(ops[j].us) > 300 { // keep the lines short
+					ops[j] = genOp(rng, false)
+				}
+			}
+			p := runWrite(ops)
+			// (a) a strict prefix
+			if len(p.bytes) > 0 {
+				cut := rng.Intn(len(p.bytes))
+				if rng.Chance(40) {
+					cut = len(p.bytes) - 1
+				}
+				pre := p.bytes[:cut]
+				back := readBack(ops, pre)
+				rep.Count("malformed:prefix")
+				if back != "fail" && !truncBad {
+					truncBad = true
+					rep.Fail("property", "truncated-stream-reads-back:"+kindsOf(ops), "a strict prefix of a program's bytes was read back without an error (values invented for bytes that are not there)",
+						map[string]interface{}{"ops": vh.Clip(p.line, 2000), "bytes": vh.Clip(vh.Hex(p.bytes), 2000), "prefix_length": cut, "read": vh.Clip(back, 2000)})
+				}
+				add("R "+p.line+" "+vh.Hex(pre), back, "decode-truncated:"+kindsOf(ops), p.line)
+			}
+			// (b) a mutated encoding
+			mb, how := mutate(p.bytes)
+			rep.Count("malformed:" + how)
+			addC("R "+p.line+" "+vh.Hex(mb), readBack(ops, mb), "decode-malformed:"+kindsOf(ops), how)
+			// (c) random bytes under a random program of reads (short, so that some reads succeed)
+			rb := rng.Bytes(rng.Intn(24))
+			if rng.Chance(50) {
+				for j := range rb {
+					rb[j] = byte(rng.PickInt([]int{0, 0, 1, 2, 3, 0xff, 0xfe, 0x80}))
+				}
+			}
+			rep.Count("malformed:random")
+			addC("R "+p.line+" "+vh.Hex(rb), readBack(ops, rb), "decode-malformed:"+kindsOf(ops), "random bytes")
+			// (d) one array read, with its guard, on a count that does not match the bytes
+			k := rng.PickStr(arrKinds)
+			ao := genOp(rng, false)
+			for ao.kind != k || len(ao.is) > 300 || len(ao.us) > 300 {
+				ao = genOp(rng, false)
+			}
+			ab := runWrite([]op{ao}).bytes
+			switch rng.Intn(4) {
+			case 0: // count larger than the elements present
+				c := int(int16(uint16(ab[0])<<8|uint16(ab[1]))) + 1 + rng.Intn(3)
+				ab[0], ab[1] = byte(c>>8), byte(c)
+			case 1: // negative / huge count
+				ab[0], ab[1] = byte(rng.PickInt([]int{0x80, 0xff, 0x7f})), byte(rng.Intn(256))
+			case 2:
+				ab, _ = mutate(ab)
+			case 3: // exactly at the guard's boundary: count*width == available, and one byte less
+				if rng.Bool() && len(ab) > 2 {
+					ab = ab[:len(ab)-1]
+				}
+			}
+			rep.Count("malformed:array-guard")
+			got := readBack([]op{{kind: k}}, ab)
+			addC("RG "+k+" "+vh.Hex(ab), got, "decode-guarded:"+k, "array read with CheckCount")
+			addC("R "+k+":- "+vh.Hex(ab), got, "decode-malformed:"+k, "array read, model without the guard")
+			rep.Case("malformed:"+p.line+":"+vh.Hex(mb), true)
+			if len(lines) >= 4000 {
+				flush()
+			}
+		}
+		// decimal-count arrays with their guard
+		for i := 0; i < nmal/4; i++ {
+			na := rng.Intn(6)
+			ao := gio.NewDataOutputX()
+			ao.WriteDecimal(int64(na))
+			for j := 0; j < na; j++ {
+				ao.WriteDecimal(genInt(rng, 8))
+			}
+			ab := append([]byte{}, ao.ToByteArray()...)
+			if rng.Chance(70) {
+				ab, _ = mutate(ab)
+			}
+			got := "fail"
+			vh.Guard(func() {
+				in := gio.NewDataInputX(ab)
+				x := in.ReadDecimalArray()
+				got = fmt.Sprintf("%s %d", ints(x), in.Available())
+			})
+			rep.Count("malformed:decimal-array")
+			addC("RG decArr "+vh.Hex(ab), got, "decode-guarded:decimal-array", "ReadDecimalArray with CheckCount")
+			addC("DA "+vh.Hex(ab), got, "decode-malformed:decimal-array", "ReadDecimalArray, model without the guard")
+		}
+	}
+
+	// 13. histories of one output stream: typed writes, WriteBytes, Write(b,off,sz) and the three
+	// frame headers in any order (a header wraps what was written so far; writing goes on behind it;
+	// a second header wraps the first frame).  Size() == len(ToByteArray()) is evaluated after every
+	// step; bytes and Size() are compared with the model's `foldl Writer.step` (theorem `writer_history`).
+	{
+		nh := 300
+		if env.Thorough {
+			nh = 6000
+		}
+		sizeBad := false
+		for i := 0; i < nh; i++ {
+			out := gio.NewDataOutputX()
+			n := 1 + rng.Intn(8)
+			steps := make([]string, 0, n)
+			// header arguments correlated with the payload now and then (first / last byte of what was written)
+			corr := func() (byte, byte) {
+				src, ver := byte(rng.Intn(256)), byte(rng.Intn(256))
+				if b := out.ToByteArray(); len(b) > 0 && rng.Chance(35) {
+					src = b[0]
+					if rng.Bool() {
+						ver = b[len(b)-1]
+					}
+				}
+				return src, ver
+			}
+			okRun := vh.Guard(func() {
+				for j := 0; j < n; j++ {
+					var st string
+					switch c := rng.Intn(10); {
+					case c < 4:
+						o := genOp(rng, false)
+						for len(o.bs) > 400 || len(o.is) > 100 || len(o.us) > 100 || len(o.bss) > 20 {
+							o = genOp(rng, false)
+						}
+						write(out, o)
+						st = "o=" + o.String()
+					case c < 5:
+						b := rng.Bytes(rng.Intn(20))
+						out.WriteBytes(b)
+						st = "b=" + vh.Hex(b)
+					case c < 6:
+						b := rng.Bytes(rng.Intn(20))
+						off := rng.Intn(len(b) + 1)
+						sz := rng.Intn(len(b) - off + 1)
+						out.Write(b, off, sz)
+						st = fmt.Sprintf("w=%s/%d/%d", vh.Hex(b), off, sz)
+					case c < 9:
+						src, ver := corr()
+						pcode, lic := genInt(rng, 8), genInt(rng, 8)
+						if rng.Bool() {
+							out.WriteHeader(src, ver, pcode, lic)
+						} else {
+							out.WriteOneWayHeader(src, ver, pcode, lic)
+						}
+						st = fmt.Sprintf("h=%d/%d/%d/%d", src, ver, pcode, lic)
+					default:
+						src, ver := corr()
+						pcode, oid, key := genInt(rng, 8), genInt(rng, 4), genInt(rng, 4)
+						out.WriteSecureHeader(src, ver, pcode, int32(oid), int32(key))
+						st = fmt.Sprintf("s=%d/%d/%d/%d/%d", src, ver, pcode, oid, key)
+					}
+					steps = append(steps, st)
+					rep.Count("history-step:" + st[:1])
+					if out.Size() != len(out.ToByteArray()) && !sizeBad {
+						sizeBad = true
+						rep.Fail("property", "size:history:"+st[:1], fmt.Sprintf("Size()=%d but %d bytes in the buffer after step %d of a history", out.Size(), len(out.ToByteArray()), j+1),
+							map[string]interface{}{"history": vh.Clip(strings.Join(steps, "|"), 3000)})
+					}
+				}
+			})
+			h := strings.Join(steps, "|")
+			rep.Case("history:"+h, true)
+			if !okRun.OK() {
+				rep.Fail("property", "write-panic:history", "a writer panicked inside a history: "+okRun.Panic, map[string]interface{}{"history": vh.Clip(h, 3000)})
+				continue
+			}
+			add("HIST "+h, fmt.Sprintf("%s %d", vh.Hex(out.ToByteArray()), out.Size()), "history:"+steps[len(steps)-1][:1], h)
+			// a frame reads back: header fields, then the payload as int-length bytes, and nothing is left
+			if last := steps[len(steps)-1]; last[0] == 'h' {
+				var f []string
+				vh.Guard(func() {
+					in := gio.NewDataInputX(out.ToByteArray())
+					f = append(f, fmt.Sprint(in.ReadByte()), fmt.Sprint(in.ReadByte()), fmt.Sprint(in.ReadLong()), fmt.Sprint(in.ReadLong()))
+					pl := in.ReadIntBytes()
+					f = append(f, fmt.Sprint(len(pl)), fmt.Sprint(in.Available()))
+				})
+				want := strings.Split(last[2:], "/")
+				if len(f) != 6 || f[0] != want[0] || f[1] != want[1] || f[2] != want[2] || f[3] != want[3] || f[5] != "0" {
+					rep.Fail("property", "roundtrip:header-frame", "a frame written by WriteHeader does not read back as source, version, project code, hash, int-length payload",
+						map[string]interface{}{"history": vh.Clip(h, 3000), "read": f})
+				}
+			}
+			if len(lines) >= 4000 {
+				flush()
+			}
+		}
+	}
+
+	// 14. ReadBytes(sz) with a signed size, WriteBytes/ReadBytes round trip, CheckCount itself,
+	// Available()/CheckCount on a connection-backed input.
+	{
+		nrb := 400
+		if env.Thorough {
+			nrb = 8000
+		}
+		for i := 0; i < nrb; i++ {
+			b := rng.Bytes(rng.Intn(40))
+			skip := 0
+			if len(b) > 0 && rng.Chance(50) {
+				skip = rng.Intn(len(b) + 1) // the reader has already consumed some bytes
+			}
+			left := len(b) - skip
+			sz := int64(rng.PickInt([]int{-1, 0, 1, left - 1, left, left + 1, rng.Intn(45), math.MinInt32, math.MaxInt32, -2147483647, 65536}))
+			got := "fail"
+			vh.Guard(func() {
+				in := gio.NewDataInputX(b)
+				in.ReadBytes(int32(skip))
+				x := in.ReadBytes(int32(sz))
+				got = fmt.Sprintf("%s %d", vh.Hex(x), in.Available())
+			})
+			rep.Count("read-bytes")
+			add(fmt.Sprintf("RB %d %s", sz, vh.Hex(b[skip:])), got, "read:ReadBytes", fmt.Sprintf("size=%d available=%d", sz, left))
+			if 0 <= sz && sz <= int64(left) && got != fmt.Sprintf("%s %d", vh.Hex(b[skip:skip+int(sz)]), left-int(sz)) {
+				rep.Fail("property", "roundtrip:ReadBytes", "ReadBytes(sz) does not return exactly the next sz bytes / leave exactly the rest",
+					map[string]interface{}{"buffer": vh.Hex(b), "already_read": skip, "size": sz, "got": got})
+			}
+			// WriteBytes(b) ; ReadBytes(len b)
+			var back []byte
+			var size int
+			oc := vh.Guard(func() {
+				o := gio.NewDataOutputX().WriteBytes(b)
+				size = o.Size()
+				back = gio.NewDataInputX(o.ToByteArray()).ReadBytes(int32(len(b)))
+			})
+			if !oc.OK() || !bytes.Equal(back, b) || size != len(b) {
+				rep.Fail("property", "roundtrip:WriteBytes", "WriteBytes(b) then ReadBytes(len(b)) is not the identity, or Size() is off",
+					map[string]interface{}{"bytes": vh.Hex(b), "read": vh.Hex(back), "size": size, "panic": oc.Panic})
+			}
+			// CheckCount(count, minBytes) with `left` bytes available
+			count := int64(rng.PickInt([]int{-1, 0, 1, left, left + 1, left / 2, left/2 + 1, left / 4, left/4 + 1, left / 8, left/8 + 1, rng.Intn(50), math.MaxInt32, math.MinInt32}))
+			mbs := int64(rng.PickInt([]int{-1, 0, 1, 2, 3, 4, 8, 100}))
+			ck := "fail"
+			vh.Guard(func() {
+				in := gio.NewDataInputX(b)
+				in.ReadBytes(int32(skip))
+				in.CheckCount(int(count), int(mbs))
+				ck = "ok"
+			})
+			rep.Count("check-count")
+			add(fmt.Sprintf("CK %d %d %d", count, mbs, left), ck, "read:CheckCount", fmt.Sprintf("count=%d minBytes=%d available=%d", count, mbs, left))
+			rep.Case(fmt.Sprintf("rb:%d:%s:%d:%d", sz, vh.Hex(b), count, mbs), true)
+		}
+		// on a connection the number of bytes to come is unknown: Available() is 0 and CheckCount never rejects
+		c1, c2 := net.Pipe()
+		var av int32 = -1
+		oc := vh.Guard(func() {
+			in := gio.NewDataInputNet(c2)
+			av = in.Available()
+			in.CheckCount(1000000, 8)
+		})
+		c1.Close()
+		c2.Close()
+		rep.Count("conn-available")
+		if !oc.OK() || av != 0 {
+			rep.Fail("property", "conn:Available/CheckCount", "on a connection-backed input Available() must be 0 and CheckCount must not reject",
+				map[string]interface{}{"available": av, "panic": oc.Panic})
+		}
+	}
+
 	// 9. independent encoders/decoders used at the same time.  The property is stated per encoder;
 	// it must therefore hold for each of several encoders whatever the others are doing (an encoder
 	// that stages bytes in package-level memory is correct alone and wrong in company).  A pool of
@@ -1301,6 +1623,12 @@ func main() {
 	rep.Extra["driver_lines"] = totalLines
 	rep.Write(env.Out)
 }
+
+// convOf: the model's name (driver line G) of each conversion helper
+var convOf = map[string]string{"ToBool": "bool", "ToShort": "s2", "ToUShort": "u2", "ToUshort": "u2", "ToShortLittle": "ls2",
+	"ToUshortLittle": "lu2", "ToInt3": "s3", "ToInt": "s4", "ToUint": "u4", "ToIntLittle": "ls4", "ToUintLittle": "lu4",
+	"ToLong5": "s5", "ToLong6": "u6", "ToLong": "s8", "ToLongLittle": "ls8", "ToUlongLittle": "lu8", "ToFloat": "u4",
+	"ToDouble": "u8", "Get": "raw7"}
 
 func kindsOf(ops []op) string {
 	if len(ops) == 1 {
